@@ -83,6 +83,9 @@ fn main() {
             let mut out = std::io::BufWriter::new(File::create(&args[5]).expect("create out"));
             match kind {
                 "score" | "tags" => record::record_predict(kind, n, seed, &mut out),
+                "sentences" => record::record_sentences(n, seed, &mut out),
+                "histories" => record::record_histories(n, seed, &mut out),
+                "serde" => record::record_serde(n, seed, &mut out),
                 _ => {
                     eprintln!("unknown record kind");
                     std::process::exit(2);
